@@ -20,6 +20,7 @@ RULE = (
     "overwritten before the wake, a wake while another node has parked commands, or re-parking after a flush; distinct = distinct case JSON."
     ' Round 6: non-set application sends (req for the same child/type, internal commands), read errors, clock ticks.'
     ' Round 7: all value types 0-56/99/255 enumerated; `reuse` sends (one Message object per key, edited before each send).'
+    ' Round 11: environment sweep (see C03).'
 )
 ASSUMPTIONS = [
     "only set commands are sent (other commands: C12); value requests from nodes are part of the traffic (their reply is a set line too)",
